@@ -20,7 +20,7 @@ import (
 	"github.com/elnosh/gonuts/cashu"
 )
 
-var crashProps = []string{"C07", "C15"}
+var crashProps = []string{"C07", "C15", "C06"}
 
 func init() {
 	register("mint-crash", crashProps,
@@ -76,6 +76,16 @@ func crashCases() []crashCase {
 		}},
 		{"mint", nil, func(e *schedEnv, _ []string) crashBuilt {
 			q := e.s.OpMintQuote(8, "sat", 0, false)
+			e.s.Settle(q)
+			outs := e.g.outputs(8, e.env.ActiveKeysetId())
+			return crashBuilt{kind: "mint", mintq: q, outs: outs, run: func() { e.s.OpMint(q, outs, 0) },
+				retry: func() bool { return len(e.s.OpMint(q, outs, 0)) > 0 }}
+		}},
+		{"mint-expired-invoice", nil, func(e *schedEnv, _ []string) crashBuilt {
+			// the invoice was settled just before it expired; every later poll / mint request comes after the expiry
+			e.env.LN.ExpireNext = true
+			q := e.s.OpMintQuote(8, "sat", 0, false)
+			e.env.LN.ExpireNext = false
 			e.s.Settle(q)
 			outs := e.g.outputs(8, e.env.ActiveKeysetId())
 			return crashBuilt{kind: "mint", mintq: q, outs: outs, run: func() { e.s.OpMint(q, outs, 0) },
@@ -181,6 +191,32 @@ func (e *schedEnv) runCrashPoint(cs crashCase, k int, fault bool) (reached bool,
 		}
 		cc.Step(t, true)
 		cc.RunToEnd(t)
+		// C06, literally: a request that is ANSWERED WITH AN ERROR (here because a storage call failed) leaves every
+		// proof state, quote state and stored signature as it was (a leading quote-state check may record PAID)
+		if t.out != nil && isErr(t.out) {
+			allow := map[string]bool{}
+			if b.mintq != nil {
+				allow[b.mintq.Id] = true
+			}
+			if d := diffSnap(pre, s.snap(), allow); d != "" {
+				nm := sigName(cs.name)
+				if b.kind == "melt" && b.mintq == nil {
+					attempted := false
+					for _, lc := range e.env.LN.Calls[lnStart:] {
+						if lc.Thread == t.id {
+							attempted = true
+						}
+					}
+					if !attempted {
+						nm = "melt"
+					}
+				}
+				c.Capture = nil
+				c.MonitorFail("C06", fmt.Sprintf("C06/fault/%s/%s/changed:%s", nm, point, strings.SplitN(d, "[", 2)[0]),
+					fmt.Sprintf("%s answered with an error after a storage error at %s, but state changed: %s", cs.name, point, d), s.replay())
+				c.Capture = &captured
+			}
+		}
 	}
 	// process kill (crash mode: now; fault mode: after the failed operation returned) and restart
 	up := cc.CrashAll()
@@ -296,7 +332,7 @@ func (e *schedEnv) runCrashPoint(cs crashCase, k int, fault bool) (reached bool,
 	// was swallowed), they must be stored: restorable after the restart
 	if t.out != nil && isOk(t.out) && (b.kind == "swap" || b.kind == "mint") && e.restorable(b.outs) != len(b.outs) {
 		verdict, what = "lost:returned-signatures-not-restorable", "the request was answered with signatures, but after the restart they are not stored (restore returns nothing for them)"
-		c.MonitorFail("C15", fmt.Sprintf("C15/%s/%s/%s/returned-signatures-not-restorable", mode, cs.name, point),
+		c.MonitorFail("C15", fmt.Sprintf("C15/%s/%s/%s/returned-signatures-not-restorable", mode, sigName(cs.name), point),
 			fmt.Sprintf("%s of %s at %s: %s", mode, cs.name, point, what), s.replay())
 	}
 	ksAfter := s.keysetView()
@@ -371,9 +407,19 @@ func (e *schedEnv) runCrashPoint(cs crashCase, k int, fault bool) (reached bool,
 	return true, verdict != "ok" || len(captured) > 0 || len(c.Res.Disagreements) > dis0
 }
 
+// sigName: the operation as it appears in finding signatures (variants of one operation that only differ in the
+// environment share the operation's name: a stranding point of `mint` is the same defect whatever the invoice's expiry)
+func sigName(name string) string {
+	if name == "mint-expired-invoice" {
+		return "mint"
+	}
+	return name
+}
+
 func (e *schedEnv) verdict(cs crashCase, mode, point, verdict, what string, replay any) {
 	c := e.c
-	key := fmt.Sprintf("%s/%s/%s/%s", mode, cs.name, point, verdict)
+	c.Hist("crash-case", cs.name)
+	key := fmt.Sprintf("%s/%s/%s/%s", mode, sigName(cs.name), point, verdict)
 	c.Case(key, true)
 	c.Hist("crash-verdict", key)
 	if verdict != "ok" {
@@ -401,6 +447,8 @@ func runMintCrash(c *Ctx) {
 		}
 	}()
 	unit := 0
+	modelOff := false
+	defer func() { schedModelOff = false }()
 	for _, cs := range crashCases() {
 		unit++
 		if unit%c.ShardN != c.ShardK {
@@ -414,8 +462,16 @@ func runMintCrash(c *Ctx) {
 					}
 				}
 				reached, tainted := e.runCrashPoint(cs, k, fault)
-				if len(c.Res.Disagreements) > 0 {
-					return
+				if len(c.Res.Disagreements) > 0 && !modelOff {
+					// the model has diverged from the code: the disagreement is reported; the rest of the stream runs
+					// model-free so that the monitors can still find a concrete failing interruption point
+					modelOff = true
+					schedModelOff = true
+					if !fresh() {
+						return
+					}
+					k--
+					continue
 				}
 				if tainted {
 					if !fresh() {
